@@ -14,6 +14,10 @@ no double free, nothing leaked after the final drops.
 hands every thread a clone of one root Arc); output per op: result row and the kinds of the thread's handles — by theorem C10_thread_view these do not
 depend on the counts, so every thread and round must reproduce the sequential model's rows; monitor: no payload destroyed while the roots live, every
 root's strong count back to 1 after the threads are done, every payload destroyed once when the roots go."""
+import os
+import sys
+import vlib
+
 PROP = "C10"
 PROP_V = "props/C10.v"
 HARNESS = "rt"
@@ -29,6 +33,18 @@ TRUSTED = [
 ASSUMPTIONS = ["std::sync::Arc is correct and its count operations are atomic", "one process: module 1 of the model is played by handles built through the published three-field layout with counting functions of the harness (case ids 10 1 / 210); two separately compiled copies of cglue are exercised by C05's cross-module harness"]
 
 NEW = [[0, 1, 7], [1, 1, 8], [2, 1, 9], [5]]
+
+
+def pre():
+    """theorem C10_thread_markers is stated over the declarations regenerated from the current source (the translator of C09)"""
+    sys.path.insert(0, os.path.join(vlib.VERIF, "translators"))
+    import autotraits
+    from srcdump import TranslateError
+    try:
+        autotraits.generate()
+        return []
+    except TranslateError as e:
+        return ["translator cannot express the current source: %s" % e]
 
 
 def line(ops):
